@@ -45,8 +45,9 @@ UNDECIDED_PAT = re.compile(r'rlimit|resource limit|timed? ?out|could not finish|
 
 
 def classify(b, vr):
-    """-> (failures, undecided, toolerrors); each failure is a dict."""
+    """-> (failures, undecided, toolerrors); each failure is a dict. classify.bad_fns: fns in which the front end reported an error."""
     failures, undecided, toolerrs = [], [], []
+    classify.bad_fns = set()
     res = vr['result']
     if res is None:
         toolerrs.append('verus produced no JSON result (rc=%s): %s' % (vr['rc'], ' | '.join(vr['raw'][-5:])))
@@ -97,6 +98,8 @@ def classify(b, vr):
             failures.append(rec)
         else:
             toolerrs.append('%s (mirror.rs:%d%s)' % (msg, pl, (', fn ' + fn['key']) if fn else ''))
+            if fn:
+                classify.bad_fns.add(fn['key'])
     if res is not None:
         vres = res.get('verification-results', {})
         if vres.get('encountered-vir-error'):
